@@ -202,6 +202,48 @@ Fixpoint wt (t : hty) (v : val) {struct t} : Prop :=
                     | _ => False end
   end.
 
+(** boolean version, run by the correspondence check on every value the harness prints
+    (sound for [wt]: Hash/WellTyped.v) *)
+Definition wtb_tuple (wtb : hty -> val -> bool) :=
+  fix go (ts : list hty) (vs : list val) : bool :=
+    match ts, vs with
+    | [], [] => true
+    | t :: ts', v :: vs' => wtb t v && go ts' vs'
+    | _, _ => false
+    end.
+Definition wtb_variant (wtb : hty -> val -> bool) (vs : list val) :=
+  fix pick (vss : list (list hty)) (i : nat) : bool :=
+    match vss, i with
+    | ts :: _, O => wtb_tuple wtb ts vs
+    | _ :: r, S i' => pick r i'
+    | [], _ => false
+    end.
+Fixpoint wtb (t : hty) (v : val) {struct t} : bool :=
+  match t with
+  | HUInt k => match v with VN x => x <? 256 ^ N.of_nat (kbytes k) | _ => false end
+  | HSInt k => match v with
+               | VZ z => (- Z.of_N (256 ^ N.of_nat (kbytes k)) <=? 2 * z)%Z && (2 * z <? Z.of_N (256 ^ N.of_nat (kbytes k)))%Z
+               | _ => false end
+  | HBool => match v with VVar i [] => Nat.ltb i 2 | _ => false end
+  | HChar => match v with VN c => char_ok c | _ => false end
+  | HFloat n => match v with VN x => (Nat.eqb n 4 || Nat.eqb n 8) && (x <? 256 ^ N.of_nat n) | _ => false end
+  | HStr => match v with VBytes l => N.of_nat (length l) <? 2 ^ 64 | _ => false end
+  | HNonZero t' => wtb t' v && nonzero v
+  | HPtr t' => wtb t' v
+  | HSkipped t' _ => wtb t' v
+  | HIntern _ t' => match v with VList [c] => wtb t' c | _ => false end
+  | HSeq _ t' => match v with
+                 | VList vs => forallb (wtb t') vs && (N.of_nat (length vs) <? 2 ^ 64)
+                 | _ => false end
+  | HUnord t' => match v with
+                 | VList vs => forallb (wtb t') vs && (N.of_nat (length vs) <? 2 ^ 64)
+                 | _ => false end
+  | HTuple ts => match v with VList vs => wtb_tuple wtb ts vs | _ => false end
+  | HEnum dw vss => match v with
+                    | VVar i vs => wtb_variant wtb vs vss i && (N.of_nat i <? 256 ^ N.of_nat dw)
+                    | _ => false end
+  end.
+
 (** * value identity as hashing sees it: entry order of unordered collections is
     irrelevant, NaN payloads are irrelevant; +0.0 and -0.0 are DIFFERENT values *)
 Definition veq_tuple (veq : hty -> val -> val -> Prop) :=
